@@ -12,6 +12,7 @@ captured by wrapping that module-level function for the duration of the call.
 """
 import ast
 import contextlib
+import math
 import inspect
 import signal
 import textwrap
@@ -492,16 +493,30 @@ class Scale:
     def zl(self, vals):
         return C.lst([self.z(v) for v in vals])
 
+    def see_reported(self, vals):
+        self.see([v for v in vals if math.isfinite(v)])
+
+    def z_reported(self, v):
+        """a number REPORTED by the implementation: inf / NaN are written as +-10^30 (NaN as
+        +10^30), which is never within tolerance of a finite input sum nor <= a threshold"""
+        if math.isfinite(v):
+            return self.z(v)
+        n = 10 ** 30 * self.den
+        return '(-%s)' % hex(n) if v == float('-inf') else hex(n)
+
 
 def table_lit(rows, sx, sp):
     if rows is None:
         return 'Err'
-    return '(Ok %s)' % C.lst(['(Sq %s %s %s %s %s)' % (C.z(r[0]), C.z(r[1]), C.z(r[2]), sx.z(r[3]), sp.z(r[4]))
-                              for r in rows])
+    return '(Ok %s)' % C.lst(['(Sq %s %s %s %s %s)' % (C.z(r[0]), C.z(r[1]), C.z(r[2]), sx.z_reported(r[3]),
+                                                       sp.z_reported(r[4])) for r in rows])
 
 
 DUMMY = ('(CTf [[0]] 24 (Tf 1 0 0) [[None]], Err, Err, Ok [], true)')
-BROKEN = ('(CRec [[0]] 53 (Pm 0 1 1 1 0 1) [] [], Err, Err, Err, true)')   # rec_hyps fails: verdict 1
+def broken(out):
+    """the model cannot be evaluated on this case (rec_hyps fails: verdict 1) - but an input
+    tensor that was modified is still a failing input (verdict 2)"""
+    return '(CRec [[0]] 53 (Pm 0 1 1 1 0 1) [] [], Err, Err, Err, %s)' % C.boolean(out.get('unchanged', True))
 
 
 def coq_rec(inp, out):
@@ -517,8 +532,8 @@ def coq_rec(inp, out):
             sx.see(row)
         for t in tables:
             if t is not None:
-                sx.see([r[3] for r in t])
-                sp.see([r[4] for r in t])
+                sx.see_reported([r[3] for r in t])
+                sp.see_reported([r[4] for r in t])
         sp.see([thr, 1.0])
         if caps is not None:
             for c in caps:
@@ -557,7 +572,7 @@ def coq_rec(inp, out):
                                          table_lit(out.get('pub'), sx, sp), C.boolean(out['unchanged']))
     except Unencodable:
         # NaN / inf somewhere: the model cannot be evaluated -> reported as a broken tie
-        return BROKEN
+        return broken(out)
 
 
 def coq_tf(inp, out):
@@ -565,14 +580,14 @@ def coq_tf(inp, out):
     if out.get('scores') is None:
         if out.get('pub') is None and not inp.get('expect_ok') and not out.get('skipped'):
             return DUMMY            # the (unverified) statistical front end raised on this track
-        return BROKEN
+        return broken(out)
     X = out['X']
     sx, sp = Scale(), Scale()
     try:
         for row in X:
             sx.see(row)
         if out['pub'] is not None:
-            sx.see([r[3] for r in out['pub']])
+            sx.see_reported([r[3] for r in out['pub']])
         finite = [[v for v in row if v != float('-inf')] for row in out['scores']]
         for row in finite:
             sx.see(row)
@@ -582,11 +597,11 @@ def coq_tf(inp, out):
         w, f, s = out['cap']
         # window / flank as requested by the caller (spec) - the captured triple must agree
         if [w, f] != list(out['params']):
-            return BROKEN
+            return broken(out)
         call = '(CTf %s %d (Tf %s %s %s) %s)' % (Xl, prec, C.z(w), C.z(f), C.z(s), sc)
         return '(%s, Err, Err, %s, %s)' % (call, table_lit(out['pub'], sx, sp), C.boolean(out['unchanged']))
     except Unencodable:
-        return BROKEN
+        return broken(out)
 
 
 def coq_case(inp, out):
@@ -780,7 +795,8 @@ def gen_tf(rng, big, plain=False):
 def gen_tf_boundary(rng):
     """window == l (one window per example), window == l - 1, flanks that mask every window
     (2 * flank >= l - window + 1) or all but one, the smallest track"""
-    for l, w, f in ((40, 40, 0), (40, 39, 0), (40, 39, 1), (60, 21, 20), (60, 21, 19), (61, 20, 20), (40, 1, 0),
+    for l, w, f in ((90, 1, 0), (90, 1, 3), (100, 2, 0), (100, 2, 2), (110, 3, 0), (110, 3, 5), (40, 1, 1),
+                    (40, 40, 0), (40, 39, 0), (40, 39, 1), (60, 21, 20), (60, 21, 19), (61, 20, 20), (40, 1, 0),
                     (40, 2, 19), (100, 25, 12), (64, 4, 30)):
         n = rng.randint(2, 6)
         yield {'kind': 'tf', 'seed': rng.randint(0, 10 ** 9), 'n': n, 'l': l, 'noise': 1.0,
